@@ -33,6 +33,9 @@ def configs(tier, seed):
     if st == 'timesorted':
       # the strategy that honours MIN_TIMESTAMP_LAG: points on both sides of now - lag in one series
       cfgs.append(dict(name='%s/lag30' % st, strategy=st, shard=7, max='inf', lag=30))
+    # MIN_TIMESTAMP_RESOLUTION is the listeners' business (C12): what the cache hands out is what it was given, whatever
+    # that setting says
+    cfgs.append(dict(name='%s/res10' % st, strategy=st, shard=8, max='inf', res=10))
     cfgs.append(dict(name='%s/writer' % st, strategy=st, mode='writer', max='inf'))
     # the reactor thread's other dealings with the cache: the instrumentation tick reads the size and stores self-metrics
     cfgs.append(dict(name='%s/ticks' % st, strategy=st, mode='ticks', max='inf'))
@@ -220,7 +223,7 @@ def oracle(h):
 def run_config(cfg, res):
   from vlib import boot, cachesim
   ns = boot.boot('carbon-cache', {'CACHE_WRITE_STRATEGY': cfg['strategy'], 'MAX_CACHE_SIZE': cfg.get('max', 'inf'), 'USE_FLOW_CONTROL': False,
-                                  'MIN_TIMESTAMP_LAG': cfg.get('lag', 0)})
+                                  'MIN_TIMESTAMP_LAG': cfg.get('lag', 0), 'MIN_TIMESTAMP_RESOLUTION': cfg.get('res', 0)})
   if cfg.get('mode') == 'writer':
     return run_writer_config(cfg, res, cachesim.World(ns, trace_files=('cache.py', 'events.py', 'writer.py')))
   if cfg.get('mode') == 'long':
